@@ -36,7 +36,8 @@ PoolMatches(lp) ==
         /\ (a.sat \ InitKeys(i)) = (b.sat \ InitKeys(i))
 Matches(s) ==
   /\ PoolMatches(s.pool) /\ rhl' = s.rhl /\ rhbase' = s.rhbase /\ q' = s.q /\ cmds' = s.cmds /\ jobs' = s.jobs
-  /\ net' = s.net /\ acks' = s.acks /\ stopped' = s.stopped /\ futseen' = s.futseen /\ maxfut' = s.maxfut
+  /\ net' = s.net /\ acks' = s.acks /\ stopped' = s.stopped /\ futseen' = s.futseen /\ maxfut' = s.maxfut /\ tohold' = s.tohold /\ holdpt' = s.holdpt
+  /\ StopPt' = s.stop
 
 Act(r) ==
   \/ r.ev = "ComputeRunahead" /\ ComputeRunahead
@@ -49,6 +50,11 @@ Act(r) ==
   \/ r.ev = "Deliver" /\ \E k \in DOMAIN net[r.arg] : Deliver(r.arg, k, FALSE)
   \/ r.ev = "AutoShutdown" /\ AutoShutdown
   \/ r.ev = "Stall" /\ Stall
+  \/ r.ev = "CmdHold" /\ CmdHold(r.arg)
+  \/ r.ev = "CmdRelease" /\ CmdRelease(r.arg)
+  \/ r.ev = "CmdHoldPoint" /\ CmdHoldPoint(r.arg)
+  \/ r.ev = "CmdReleaseHoldPoint" /\ CmdReleaseHoldPoint
+  \/ r.ev = "CmdStopPoint" /\ CmdStopPoint(r.arg)
 
 Strict(r) == Act(r) /\ Matches(r.st)
 
@@ -78,12 +84,16 @@ FailedNext ==
      <<"C31_NoOverlap", C31_NoOverlap'>>,
      <<"C31_NoClashAtPrepare", C31_NoClashAtPrepare'>>,
      <<"C04_ReleaseStepOK", C04_ReleaseStepOK>>,
+     <<"C06_HeldNeverPrepared", C06_HeldNeverPrepared'>>,
+     <<"C06_HoldListMatchesFlags", C06_HoldListMatchesFlags'>>,
+     <<"C06_BeyondHoldPointHeld", C06_BeyondHoldPointHeld'>>,
      <<"C09_Step", C09_Step>>} : ~y[2]}}
 
 SetFrom(s) ==
   /\ pool' = AsModelPool(s.pool) /\ rhl' = s.rhl /\ q' = s.q /\ cmds' = s.cmds /\ jobs' = s.jobs
   /\ net' = s.net /\ acks' = s.acks /\ stopped' = s.stopped
-  /\ rhbase' = s.rhbase /\ futseen' = s.futseen /\ maxfut' = s.maxfut
+  /\ rhbase' = s.rhbase /\ futseen' = s.futseen /\ maxfut' = s.maxfut /\ tohold' = s.tohold /\ holdpt' = s.holdpt
+  /\ stopcmd' = (IF s.stop = W.fcp THEN NoPoint ELSE s.stop) /\ cb' = CmdBudget
 
 Good ==
   /\ l < Len(Run)
@@ -118,7 +128,8 @@ MTInit ==
   LET s == MT_Runs[1][1].st IN
   /\ pool = AsModelPool(s.pool) /\ rhl = s.rhl /\ q = s.q /\ cmds = s.cmds /\ jobs = s.jobs
   /\ net = s.net /\ acks = s.acks /\ stopped = s.stopped
-  /\ rhbase = s.rhbase /\ futseen = s.futseen /\ maxfut = s.maxfut
+  /\ rhbase = s.rhbase /\ futseen = s.futseen /\ maxfut = s.maxfut /\ tohold = s.tohold /\ holdpt = s.holdpt
+  /\ stopcmd = (IF s.stop = W.fcp THEN NoPoint ELSE s.stop) /\ cb = CmdBudget
   /\ done = OutsOf(s.pool) /\ ran = {} /\ db = [pool |-> {}]
   /\ fb = [dup |-> Faults.dup, crash |-> Faults.crash]
   /\ tid = 1 /\ l = 1 /\ bad = {}
